@@ -292,7 +292,7 @@ func (g *gen) history(maxOps int) {
 	}
 	ops := r.Range(2, maxOps)
 	for i := 0; i < ops; i++ {
-		switch c := r.Intn(24); {
+		switch c := r.Intn(31); {
 		case c < 11: // append
 			a := acc
 			if r.Chance(1, 3) {
@@ -367,6 +367,67 @@ func (g *gen) history(maxOps int) {
 				res = v
 			}
 			g.out(g.fresh(), res, "eon "+vn(a))
+		case c < 25: // errors.Is(a, b): mostly something a can reach
+			a := g.anyVar()
+			b := g.anyVar()
+			if r.Chance(2, 3) {
+				// the cause of a, or a itself
+				for v, d := g.val(a), r.Intn(4); d > 0; d-- {
+					switch v.kind {
+					case kRef:
+						v = g.s.nodes[v.id].cause
+					case kFwrap:
+						v = *v.inner
+					}
+					for k2, w := range g.s.vars {
+						if w == v && k2 < g.nextV && v.kind != kNil {
+							b = k2
+						}
+					}
+				}
+			}
+			g.out(g.fresh(), g.val(a), "is "+vn(a)+" "+vn(b))
+		case c < 26: // errors.As(a, &*Error)
+			a := g.anyVar()
+			v := g.val(a)
+			for v.kind == kFwrap {
+				v = *v.inner
+			}
+			if v.kind != kRef && v.kind != kTnil {
+				v = sval{kind: kNil}
+			}
+			g.out(g.fresh(), v, "as "+vn(a))
+		case c < 28: // errs.Recovery
+			mode := hx.Pick(r, []string{"err", "err", "err", "str", "str", "nohandler", "badhandler", "none"})
+			a := g.anyVar()
+			v := g.val(a)
+			res := sval{kind: kNil}
+			arg := vn(a)
+			switch {
+			case mode == "str":
+				arg = hexMsg(r)
+				in := g.s.push(snode{next: -1})
+				res = sval{kind: kRef, id: g.s.push(snode{next: -1, cause: sval{kind: kRef, id: in}})}
+			case mode == "none" || mode == "nohandler" || v.kind == kNil:
+			default:
+				cv := v
+				if nilish(cv) {
+					cv = sval{kind: kNil}
+				}
+				res = sval{kind: kRef, id: g.s.push(snode{next: -1, cause: cv})}
+			}
+			g.out(g.fresh(), res, "recover "+mode+" "+arg+" "+hx.Hex([]byte(recoveryMessage)))
+		case c < 30: // errs.Log* through a capturing handler: the error behind the stack_trace attribute
+			a := g.anyVar()
+			v := g.val(a)
+			res := v
+			switch {
+			case nilish(v):
+				res = sval{kind: kNil}
+			case v.kind != kRef:
+				res = sval{kind: kRef, id: g.s.push(snode{next: -1, cause: v})}
+			}
+			g.out(g.fresh(), res, "log "+vn(a)+" "+strconv.Itoa(r.Intn(10)))
 		default:
 			a := g.anyVar()
 			v := g.val(a)
